@@ -361,6 +361,7 @@ def ackermannize(fs, stats):
             step = z3.Implies(z3.And(k2 == k1 + 1, k1 >= 0), c2 == c1 + MILLE * z3.Select(d1, k1) * z3.Select(a1, k1))
             extra_sel.append(step)
     stats["ackermann"] = {k: len(v) for k, v in tables.items()}
+    stats["_select_table"] = [(c, a[0], a[1]) for c, a in tables["select"]]
     return out, ax, extra_sel
 
 
@@ -492,6 +493,9 @@ def discharge_smt2(smt2, timeout_s=20, use_cvc5=True, both=False):
         if r == "unknown" and r0 == "sat":
             r, model = r0, model0
     cand = None
+    arrs = {}
+    if r == "sat":
+        arrs = arrays_from_model(model, stats)
     if r == "unsat":
         res.update(verdict="unsat", stage=1, backend="z3")
         if both and use_cvc5:
@@ -514,6 +518,7 @@ def discharge_smt2(smt2, timeout_s=20, use_cvc5=True, both=False):
             return res
         if r == "sat":
             cand = model_to_dict(model)
+            arrs = arrays_from_model(model, stats)
     if use_cvc5 and r != "sat":
         r2, dt2 = run_cvc5(fs, timeout_s)
         res["attempts"].append(("stage1/cvc5", r2, round(dt2, 3)))
@@ -532,11 +537,28 @@ def discharge_smt2(smt2, timeout_s=20, use_cvc5=True, both=False):
         except Exception as e:
             res["attempts"].append(("stage2/z3", "error %r" % (e,), 0))
     if cand is not None:
-        res.update(verdict="sat", stage=1, backend="z3", model=cand, weakened=weakened)
+        res.update(verdict="sat", stage=1, backend="z3", model=cand, weakened=weakened, arrays=arrs)
     else:
         res.update(verdict="unknown")
     res["time"] = time.time() - t0
+    stats.pop("_select_table", None)
     return res
+
+
+def arrays_from_model(m, stats):
+    out = {}
+    if m is None:
+        return out
+    for c, arr, idx in stats.get("_select_table", []):
+        try:
+            i = m.eval(idx, model_completion=True)
+            v = m.eval(c, model_completion=True)
+            if z3.is_algebraic_value(v):
+                v = v.approx(12)
+            out.setdefault(str(arr), {})[str(i)] = str(v)
+        except Exception:
+            continue
+    return out
 
 
 def model_to_dict(m):
